@@ -252,6 +252,9 @@ func c18(c *Ctx) {
 	for _, d := range decls { // the fields as declared now: lets the model side recognise a renamed field by its type
 		items = append(items, "f:"+d.Struct+":"+d.Field+":"+strings.ReplaceAll(d.Type, ":", ";"))
 	}
+	for _, s := range sites { // all sites: a renamed field is recognised by how it is used
+		items = append(items, "s:"+s.Func+":"+s.Type+":"+s.Field+":"+s.Role)
+	}
 	c.Case("graph "+strings.Join(items, " "), "graph-loaded", true)
 	for _, e := range edges {
 		if e.Kind != "call" {
